@@ -428,6 +428,10 @@ add("C09", "fixed", "render-exceeds-step-budget:render:lax-mode-fanout", "in lax
     "level rendered 2^depth-limit times (hours with the default limit of 30) instead of being cut off",
     [{"kind": "family", "family": "render", "cycle": 1, "wrappers": [], "async": False, "must_cut": False, "mode": "lax", "fanout": 2}], "68b6280")
 
+add("C01", "fixed", "render-differs:output", "the asynchronous if tag evaluated an elsif condition twice (it rendered the conditional node, not its block): with a condition that has an effect "
+    "(block.super re-renders the parent block, counters included) render gave 'yes', render_async gave ''",
+    [c01({"base": "{% block b %}{% increment c %}{% endblock %}", "main": "{% extends 'base' %}{% block b %}{% if false %}no{% elsif block.super == '0' %}yes{% else %}else{% endif %}{% endblock %}"}, {}, env={"extra": True})], "9c04756")
+
 if __name__ == "__main__":
     # further entries are appended by tools/mkfindings.py from triaged replay files and kept in findings_extra.json
     extra_path = os.path.join(VERIF, "tools", "findings_extra.json")
